@@ -10,15 +10,45 @@ Lib/DecArith.vos Lib/DecArith.vok Lib/DecArith.required_vos: Lib/DecArith.v Lib/
 Lib/DecFacts.vo Lib/DecFacts.glob Lib/DecFacts.v.beautified Lib/DecFacts.required_vo: Lib/DecFacts.v Lib/Base.vo Lib/DecArith.vo
 Lib/DecFacts.vio: Lib/DecFacts.v Lib/Base.vio Lib/DecArith.vio
 Lib/DecFacts.vos Lib/DecFacts.vok Lib/DecFacts.required_vos: Lib/DecFacts.v Lib/Base.vos Lib/DecArith.vos
+Lib/DecFacts2.vo Lib/DecFacts2.glob Lib/DecFacts2.v.beautified Lib/DecFacts2.required_vo: Lib/DecFacts2.v Lib/Base.vo Lib/DecArith.vo Lib/DecFacts.vo
+Lib/DecFacts2.vio: Lib/DecFacts2.v Lib/Base.vio Lib/DecArith.vio Lib/DecFacts.vio
+Lib/DecFacts2.vos Lib/DecFacts2.vok Lib/DecFacts2.required_vos: Lib/DecFacts2.v Lib/Base.vos Lib/DecArith.vos Lib/DecFacts.vos
+Lib/F64.vo Lib/F64.glob Lib/F64.v.beautified Lib/F64.required_vo: Lib/F64.v Lib/Base.vo
+Lib/F64.vio: Lib/F64.v Lib/Base.vio
+Lib/F64.vos Lib/F64.vok Lib/F64.required_vos: Lib/F64.v Lib/Base.vos
+Model/Accrual.vo Model/Accrual.glob Model/Accrual.v.beautified Model/Accrual.required_vo: Model/Accrual.v Lib/Base.vo Lib/DecArith.vo Lib/F64.vo
+Model/Accrual.vio: Model/Accrual.v Lib/Base.vio Lib/DecArith.vio Lib/F64.vio
+Model/Accrual.vos Model/Accrual.vok Model/Accrual.required_vos: Model/Accrual.v Lib/Base.vos Lib/DecArith.vos Lib/F64.vos
+Model/Gauge.vo Model/Gauge.glob Model/Gauge.v.beautified Model/Gauge.required_vo: Model/Gauge.v Lib/Base.vo Lib/DecArith.vo Lib/F64.vo
+Model/Gauge.vio: Model/Gauge.v Lib/Base.vio Lib/DecArith.vio Lib/F64.vio
+Model/Gauge.vos Model/Gauge.vok Model/Gauge.required_vos: Model/Gauge.v Lib/Base.vos Lib/DecArith.vos Lib/F64.vos
 Model/Market.vo Model/Market.glob Model/Market.v.beautified Model/Market.required_vo: Model/Market.v Lib/Base.vo
 Model/Market.vio: Model/Market.v Lib/Base.vio
 Model/Market.vos Model/Market.vok Model/Market.required_vos: Model/Market.v Lib/Base.vos
+Model/Rates.vo Model/Rates.glob Model/Rates.v.beautified Model/Rates.required_vo: Model/Rates.v Lib/Base.vo Lib/DecArith.vo
+Model/Rates.vio: Model/Rates.v Lib/Base.vio Lib/DecArith.vio
+Model/Rates.vos Model/Rates.vok Model/Rates.required_vos: Model/Rates.v Lib/Base.vos Lib/DecArith.vos
+Proofs/AccrualProofs.vo Proofs/AccrualProofs.glob Proofs/AccrualProofs.v.beautified Proofs/AccrualProofs.required_vo: Proofs/AccrualProofs.v Lib/Base.vo Lib/DecArith.vo Lib/DecFacts.vo Lib/DecFacts2.vo Lib/F64.vo Model/Accrual.vo
+Proofs/AccrualProofs.vio: Proofs/AccrualProofs.v Lib/Base.vio Lib/DecArith.vio Lib/DecFacts.vio Lib/DecFacts2.vio Lib/F64.vio Model/Accrual.vio
+Proofs/AccrualProofs.vos Proofs/AccrualProofs.vok Proofs/AccrualProofs.required_vos: Proofs/AccrualProofs.v Lib/Base.vos Lib/DecArith.vos Lib/DecFacts.vos Lib/DecFacts2.vos Lib/F64.vos Model/Accrual.vos
+Proofs/GaugeProofs.vo Proofs/GaugeProofs.glob Proofs/GaugeProofs.v.beautified Proofs/GaugeProofs.required_vo: Proofs/GaugeProofs.v Lib/Base.vo Lib/DecArith.vo Lib/DecFacts.vo Lib/DecFacts2.vo Lib/F64.vo Model/Gauge.vo
+Proofs/GaugeProofs.vio: Proofs/GaugeProofs.v Lib/Base.vio Lib/DecArith.vio Lib/DecFacts.vio Lib/DecFacts2.vio Lib/F64.vio Model/Gauge.vio
+Proofs/GaugeProofs.vos Proofs/GaugeProofs.vok Proofs/GaugeProofs.required_vos: Proofs/GaugeProofs.v Lib/Base.vos Lib/DecArith.vos Lib/DecFacts.vos Lib/DecFacts2.vos Lib/F64.vos Model/Gauge.vos
 Proofs/MarketProofs.vo Proofs/MarketProofs.glob Proofs/MarketProofs.v.beautified Proofs/MarketProofs.required_vo: Proofs/MarketProofs.v Lib/Base.vo Model/Market.vo
 Proofs/MarketProofs.vio: Proofs/MarketProofs.v Lib/Base.vio Model/Market.vio
 Proofs/MarketProofs.vos Proofs/MarketProofs.vok Proofs/MarketProofs.required_vos: Proofs/MarketProofs.v Lib/Base.vos Model/Market.vos
+Proofs/RatesProofs.vo Proofs/RatesProofs.glob Proofs/RatesProofs.v.beautified Proofs/RatesProofs.required_vo: Proofs/RatesProofs.v Lib/Base.vo Lib/DecArith.vo Lib/DecFacts.vo Lib/DecFacts2.vo Model/Rates.vo
+Proofs/RatesProofs.vio: Proofs/RatesProofs.v Lib/Base.vio Lib/DecArith.vio Lib/DecFacts.vio Lib/DecFacts2.vio Model/Rates.vio
+Proofs/RatesProofs.vos Proofs/RatesProofs.vok Proofs/RatesProofs.required_vos: Proofs/RatesProofs.v Lib/Base.vos Lib/DecArith.vos Lib/DecFacts.vos Lib/DecFacts2.vos Model/Rates.vos
 Properties/C17.vo Properties/C17.glob Properties/C17.v.beautified Properties/C17.required_vo: Properties/C17.v Lib/Base.vo Model/Market.vo Proofs/MarketProofs.vo
 Properties/C17.vio: Properties/C17.v Lib/Base.vio Model/Market.vio Proofs/MarketProofs.vio
 Properties/C17.vos Properties/C17.vok Properties/C17.required_vos: Properties/C17.v Lib/Base.vos Model/Market.vos Proofs/MarketProofs.vos
+Properties/C18.vo Properties/C18.glob Properties/C18.v.beautified Properties/C18.required_vo: Properties/C18.v Lib/Base.vo Lib/DecArith.vo Lib/F64.vo Model/Accrual.vo Model/Rates.vo Proofs/AccrualProofs.vo Proofs/RatesProofs.vo
+Properties/C18.vio: Properties/C18.v Lib/Base.vio Lib/DecArith.vio Lib/F64.vio Model/Accrual.vio Model/Rates.vio Proofs/AccrualProofs.vio Proofs/RatesProofs.vio
+Properties/C18.vos Properties/C18.vok Properties/C18.required_vos: Properties/C18.v Lib/Base.vos Lib/DecArith.vos Lib/F64.vos Model/Accrual.vos Model/Rates.vos Proofs/AccrualProofs.vos Proofs/RatesProofs.vos
+Properties/C19.vo Properties/C19.glob Properties/C19.v.beautified Properties/C19.required_vo: Properties/C19.v Lib/Base.vo Lib/DecArith.vo Lib/F64.vo Model/Gauge.vo Proofs/GaugeProofs.vo
+Properties/C19.vio: Properties/C19.v Lib/Base.vio Lib/DecArith.vio Lib/F64.vio Model/Gauge.vio Proofs/GaugeProofs.vio
+Properties/C19.vos Properties/C19.vok Properties/C19.required_vos: Properties/C19.v Lib/Base.vos Lib/DecArith.vos Lib/F64.vos Model/Gauge.vos Proofs/GaugeProofs.vos
 Extract/Extract.vo Extract/Extract.glob Extract/Extract.v.beautified Extract/Extract.required_vo: Extract/Extract.v Lib/Base.vo Lib/DecArith.vo Model/Market.vo
 Extract/Extract.vio: Extract/Extract.v Lib/Base.vio Lib/DecArith.vio Model/Market.vio
 Extract/Extract.vos Extract/Extract.vok Extract/Extract.required_vos: Extract/Extract.v Lib/Base.vos Lib/DecArith.vos Model/Market.vos
